@@ -21,6 +21,8 @@ RELATED = {
     'C11_d': ['C11', 'C12'], 'C12_d': ['C12'], 'C13_d': ['C13'], 'C14_d': ['C14', 'C15'], 'C15_d': ['C15', 'C14'],
     'C01_e': ['C01', 'C19'], 'C04_e': ['C04'], 'C05_e': ['C05'], 'C07_e': ['C07'], 'C09_e': ['C09'], 'C13_e': ['C13'], 'C16_e': ['C16'], 'C17_e': ['C17'],
     'C18_e': ['C18'], 'C19_e': ['C19'], 'C20_e': ['C20'],
+    'C02_f': ['C02'], 'C03_f': ['C03', 'C19'], 'C04_f': ['C04'], 'C06_f': ['C06'], 'C08_f': ['C08'], 'C10_f': ['C10'], 'C11_f': ['C11', 'C12'], 'C12_f': ['C12'],
+    'C14_f': ['C14', 'C15'], 'C15_f': ['C15'], 'C16_f': ['C16', 'C19'], 'C20_f': ['C20'],
     'C01_c': ['C01', 'C12'], 'C16_c': ['C16'], 'C17_c': ['C17'], 'C18_c': ['C18', 'C13'], 'C19_c': ['C19', 'C03'], 'C20_c': ['C20'],
 }
 
